@@ -9,3 +9,34 @@ pub axiom fn axiom_hmac512_len(k: Seq<u8>, m: Seq<u8>) ensures spec_hmac::<Sha51
 pub open spec fn xkey_payload(version: u32, depth: u8, fp: Seq<u8>, index: u32, chain: Seq<u8>, keydata: Seq<u8>) -> Seq<u8> {
     be32(version) + seq![depth] + fp + be32(index) + chain + keydata
 }
+// ---- BIP32 paths: "m/i0/i1/..." names CKD(...CKD(CKD(m, i0), i1)...); a segment is decimal digits below 2^31 with an optional hardened marker ----
+pub open spec fn idx_of_segment(x: Seq<char>) -> Option<u32> {
+    let digits = str_trim_end(str_trim_end(str_trim_end(x, '\''), 'h'), 'H');
+    let marked = str_ends_with(x, '\'') || str_ends_with(str_lower(x), 'h');
+    match str_parse_u32(digits) {
+        Some(v) => if v < 0x80000000u32 { Some(if marked { (v + 0x80000000u32) as u32 } else { v }) } else { None },
+        None => None,
+    }
+}
+pub open spec fn segs_all_indices(segs: Seq<Seq<char>>) -> bool { forall|j: int| 0 <= j < segs.len() ==> idx_of_segment(#[trigger] segs[j]) is Some }
+pub open spec fn segs_indices(segs: Seq<Seq<char>>) -> Seq<u32> { Seq::new(segs.len(), |j: int| idx_of_segment(segs[j])->Some_0) }
+// (secret, chain code) reached from (k, chain) by private derivation along idxs, left to right
+pub open spec fn ckd_priv_path(k: Seq<u8>, chain: Seq<u8>, idxs: Seq<u32>) -> (Seq<u8>, Seq<u8>)
+    decreases idxs.len()
+{
+    if idxs.len() == 0 { (k, chain) } else {
+        let p = ckd_priv_path(k, chain, idxs.drop_last());
+        let i = ckd_i(p.1, ckd_priv_data(p.0, idxs.last()));
+        (sc_add(p.0, i.subrange(0, 32)), i.subrange(32, 64))
+    }
+}
+pub proof fn lemma_ckd_priv_path_step(k: Seq<u8>, chain: Seq<u8>, idxs: Seq<u32>, n: int)
+    requires 0 <= n < idxs.len()
+    ensures ({ let p = ckd_priv_path(k, chain, idxs.take(n)); let i = ckd_i(p.1, ckd_priv_data(p.0, idxs[n]));
+        ckd_priv_path(k, chain, idxs.take(n + 1)) == (sc_add(p.0, i.subrange(0, 32)), i.subrange(32, 64)) }),
+        n == 0 ==> ckd_priv_path(k, chain, idxs.take(n)) == (k, chain)
+{
+    assert(idxs.take(n + 1).drop_last() =~= idxs.take(n));
+    assert(idxs.take(n + 1).last() == idxs[n]);
+    assert(idxs.take(n + 1).len() == n + 1);
+}
